@@ -1,6 +1,6 @@
 (* Facts about Lang/Interp.v shared by C02 and C19: evaluating an expression - macro calls included -
    never writes to the current output buffer; statements only ever add chunks to it. *)
-From MJ Require Import Common.Base Lang.Syntax Lang.Meta Lang.Interp.
+From MJ Require Import Common.Base Lang.Syntax Lang.Meta Lang.Interp Lang.Facts.
 
 Lemma bind_ok {A B} (o : outcome A) (f : A -> outcome B) r : bind o f = Ok r -> exists a, o = Ok a /\ f a = Ok r.
 Proof. destruct o; cbn; intros H; try discriminate. eauto. Qed.
@@ -23,6 +23,18 @@ Proof.
   - change (map_eval ev s (x :: r)) with (bind (ev s x) (fun '(v, s1) => bind (map_eval ev s1 r) (fun '(vs, s2) => Ok (v :: vs, s2)))) in H.
     apply bind_ok in H as ([v s1] & E1 & H). apply bind_ok in H as ([vs1 s2] & E2 & H). inversion H; subst.
     rewrite (IH _ _ _ E2). eapply Hev; eauto.
+Qed.
+
+Lemma map_eval_pairs_out ev : ev_out ev -> forall l s kvs s', map_eval_pairs ev s l = Ok (kvs, s') -> s_out s' = s_out s.
+Proof.
+  intros Hev. induction l as [|[ke ve] r IH]; intros s kvs s' H.
+  - cbn in H. inversion H; subst. auto.
+  - change (map_eval_pairs ev s ((ke, ve) :: r)) with
+      (bind (ev s ke) (fun '(k, s1) => bind (ev s1 ve) (fun '(v, s2) =>
+       bind (map_eval_pairs ev s2 r) (fun '(kvs, s3) => Ok ((k, v) :: kvs, s3))))) in H.
+    apply bind_ok in H as ([k s1] & E1 & H). apply bind_ok in H as ([v s2] & E2 & H).
+    apply bind_ok in H as ([kvs1 s3] & E3 & H). inversion H; subst.
+    rewrite (IH _ _ _ E3), (Hev _ _ _ _ E2). eapply Hev; eauto.
 Qed.
 
 Lemma map_eval_kw_out ev : ev_out ev -> forall l s kvs s', map_eval_kw ev s l = Ok (kvs, s') -> s_out s' = s_out s.
@@ -71,10 +83,11 @@ Qed.
 Lemma eval_out c esc : forall fuel, ev_out (eval c fuel esc).
 Proof.
   induction fuel as [|fuel Hev]; intros s e v s' H; [simpl in H; discriminate|].
-  destruct e as [l|x|items|a|a|op a b|a rest|a b|a b|cnd t f|a i|a attr|f a args|t a args neg|f args kwargs]; simpl in H.
+  destruct e as [l|x|items|pairs|a|a|op a b|a rest|a b|a b|cnd t f|a i|a attr|f a args|t a args neg|f args kwargs]; simpl in H.
   - destruct l; inversion H; subst; auto.
   - destruct (lookup c s x) as [w s1] eqn:El. inversion H; subst. eapply lookup_out; eauto.
   - apply bind_ok in H as ([vs s1] & E1 & H). inversion H; subst. eapply map_eval_out; eauto.
+  - apply bind_ok in H as ([kvs s1] & E1 & H). inversion H; subst. eapply map_eval_pairs_out; eauto.
   - apply bind_ok in H as ([w s1] & E1 & H). destruct w; try discriminate. inversion H; subst. eapply Hev; eauto.
   - apply bind_ok in H as ([w s1] & E1 & H). apply bind_ok in H as (b & _ & H). inversion H; subst. eapply Hev; eauto.
   - apply bind_ok in H as ([x s1] & E1 & H). apply bind_ok in H as ([y s2] & E2 & H). apply bind_ok in H as (u & _ & H).
@@ -88,12 +101,12 @@ Proof.
     destruct b; [rewrite (Hev _ _ _ _ H); auto|]. destruct f as [f|]; [rewrite (Hev _ _ _ _ H); auto|inversion H; subst; auto].
   - apply bind_ok in H as ([x s1] & E1 & H). apply bind_ok in H as ([k s2] & E2 & H).
     assert (s' = s2) as ->.
-    { destruct (match x with VList l => match k with VInt z => idx_list l z | _ => None end | _ => None end); [inversion H; auto|].
+    { destruct (get_item_opt x k); [inversion H; auto|].
       apply bind_ok in H as (w & _ & H). inversion H; auto. }
     rewrite (Hev _ _ _ _ E2). eapply Hev; eauto.
   - apply bind_ok in H as ([x s1] & E1 & H).
     assert (s' = s1) as ->.
-    { destruct (match x with VLoop i n => loop_attr i n attr | _ => None end); [inversion H; auto|].
+    { destruct (get_attr_opt x attr); [inversion H; auto|].
       apply bind_ok in H as (w & _ & H). inversion H; auto. }
     eapply Hev; eauto.
   - apply bind_ok in H as ([x s1] & E1 & H). apply bind_ok in H as ([vs s2] & E2 & H). apply bind_ok in H as (r & E3 & H). inversion H; subst.
@@ -104,9 +117,9 @@ Proof.
     destruct (lookup c s2 f) as [fv s3] eqn:El.
     assert (Ho : s_out s3 = s_out s).
     { rewrite (lookup_out _ _ _ _ _ El), (map_eval_kw_out _ Hev _ _ _ _ E2). eapply map_eval_out; eauto. }
-    destruct fv as [fv|]; [|discriminate]. destruct fv as [| | |b|z|sf t|l|mc cl|i n|g]; try discriminate.
+    destruct fv as [fv|]; [|discriminate]. destruct fv as [| | |b|z|sf t|l|kvs0|mc cl|i n|g]; try discriminate.
     + rewrite (call_macro_out _ _ _ _ _ _ _ _ _ _ H). exact Ho.
-    + destruct (g =? N_range); [|discriminate]. destruct vs as [|[| | |b|z|sf t|l|mc cl|i n|g'] [|? ?]]; try discriminate.
+    + destruct (g =? N_range); [|discriminate]. destruct vs as [|[| | |b|z|sf t|l|kvs0|mc cl|i n|g'] [|? ?]]; try discriminate.
       destruct kvs; [|discriminate]. inversion H; subst. exact Ho.
 Qed.
 
@@ -137,18 +150,19 @@ Qed.
 
 Lemma bind_target_out tgt s item s' : bind_target tgt s item = Ok s' -> s_out s' = s_out s.
 Proof.
-  unfold bind_target. destruct tgt as [x|x y].
-  - intros H; inversion H; subst. apply store_out.
-  - destruct item as [| | |b|z|sf t|l|mc cl|i n|g]; try discriminate.
-    destruct l as [|a [|b [|? ?]]]; try discriminate. intros H; inversion H; subst. now rewrite !store_out.
+  destruct tgt as [x|x y].
+  - cbn [bind_target]. intros H; inversion H; subst. apply store_out.
+  - intros H. apply bind_target_pair_inv in H as (a & b & _ & ->). now rewrite !store_out.
 Qed.
 
 Lemma with_binds_out ev : ev_out ev -> forall l s s', with_binds ev s l = Ok s' -> s_out s' = s_out s.
 Proof.
-  intros Hev. induction l as [|[x e] r IH]; intros s s' H.
+  intros Hev. induction l as [|[t e] r IH]; intros s s' H.
   - cbn in H. inversion H; subst; auto.
-  - change (with_binds ev s ((x, e) :: r)) with (bind (ev s e) (fun '(v, s1) => with_binds ev (store s1 x v) r)) in H.
-    apply bind_ok in H as ([v s1] & E1 & H). rewrite (IH _ _ H), store_out. eapply Hev; eauto.
+  - change (with_binds ev s ((t, e) :: r)) with
+      (bind (ev s e) (fun '(v, s1) => bind (bind_target t s1 v) (fun s2 => with_binds ev s2 r))) in H.
+    apply bind_ok in H as ([v s1] & E1 & H). apply bind_ok in H as (s2 & E2 & H).
+    rewrite (IH _ _ H), (bind_target_out _ _ _ _ E2). eapply Hev; eauto.
 Qed.
 
 Lemma filter_items_out m ev tgt fe : ev_out ev -> forall l s items s', filter_items m ev tgt fe s l = Ok (items, s') -> s_out s' = s_out s.
